@@ -33,7 +33,7 @@ RULE = (
 ASSUMPTIONS = ["enumeration bound N=9 (10 thorough); lengths above the C02 oracle bound are enumerated by the library and checked for downward closure only",
                "compression property of the three families (x embeds in a member iff in the member of length 2|x|+4), validated against the shipped tables at design time"]
 REQUIRED = ["calls.PinWords.has_finite_simples", "calls.PinWords.has_finite_alternations", "calls.PinWords.has_finite_wedges_type_1",
-            "calls.PinWords.has_finite_wedges_type_2", "calls.Av.has_finitely_many_simples", "calls.FinitelyManySimplesStrategy.applies",
+            "calls.PinWords.has_finite_wedges_type_2", "calls.Av.has_finitely_many_simples", "calls.FinitelyManySimplesStrategy.applies", "verdict.whole_checked", "verdict.all_nonpin_bases", "nonpin.bases",
             "verdict.finite", "verdict.infinite", "oracleA.infinite_checked", "oracleA.finite_confirmed", "oracleB.tables_checked",
             "oracleB.finite_families_checked", "symmetry.checked", "cli.checked", "oracleB.table_probes", "separating_bases", "history.enumeration_depths"]
 MIN_NONTRIVIAL = 20
@@ -107,13 +107,73 @@ def setup(ctx):
     m.wrap(PinWords, "has_finite_alternations", post_table("has_finite_alternations", "parallel_alternation"))
     m.wrap(PinWords, "has_finite_wedges_type_1", post_table("has_finite_wedges_type_1", "wedge_type_1"))
     m.wrap(PinWords, "has_finite_wedges_type_2", post_table("has_finite_wedges_type_2", "wedge_type_2"))
-    m.wrap(PinWords, "has_finite_simples", lambda a, k, r, e: None)
+    m.wrap(PinWords, "has_finite_simples", post_simples)
     m.wrap(PinWords, "has_finite_special_simples", post_special)
     m.wrap(Av, "has_finitely_many_simples", lambda a, k, r, e: None)
     m.wrap(FinitelyManySimplesStrategy, "applies", lambda a, k, r, e: None)
     ctx._tmp = tempfile.mkdtemp(prefix="vf-c16-")
     ctx._cwd = os.getcwd()
     os.chdir(ctx._tmp)
+
+
+def is_pin_perm(t):
+    """every permutation of length <= 5 is the permutation of some pin word; from length 6 on decided by enumeration"""
+    return len(t) <= 5 or tuple(t) in P.pin_perms(len(t))
+
+
+def oscillation(n):
+    """the increasing oscillation of length n (a simple permutation for n >= 4): 1 3 0 5 2 7 4 ..."""
+    seq = [1, 3]
+    k = 0
+    while len(seq) < n + 2:
+        seq.extend((2 * k, 2 * k + 5))
+        k += 1
+    return C.std(seq[:n])
+
+
+def post_simples(args, kwargs, res, exc):
+    """the verdict as a whole: the special-simples part by the family formulas on the FULL basis as handed over, and
+    (i) a basis without any pin permutation leaves every pin permutation in the class - infinitely many simples;
+    (ii) if a long oscillation (in any of its eight images) avoids the basis, so do all longer ones - infinitely many simples;
+    (iii) otherwise the pin part as the library's own automaton decides it (that automaton is judged by C15)"""
+    try:
+        ts = as_ts(list(args[1]))
+    except TypeError:
+        return
+    if ts is None or any(len(t) > 7 for t in ts) or kwargs.get("dfa") is not None or len(args) > 4:
+        return
+    CTX.ev()
+    CTX.count("verdict.whole_checked")
+    if exc is not None:
+        report("basis", [[list(t) for t in ts]], f"has_finite_simples({ts}) raised {exc!r}")
+        return
+    want, why = expected_verdict(tuple(sorted(set(ts))))
+    if res is not want:
+        report("basis", [[list(t) for t in ts]], f"has_finite_simples({ts}) = {res!r}, want {want}: {why}")
+
+
+import functools  # noqa: E402
+
+
+@functools.lru_cache(maxsize=20000)
+def expected_verdict(ts):
+    ts = list(ts)
+    special = all(F.finite_for_family(f, ts) for f in F.FAMILIES)
+    k = max(len(t) for t in ts)
+    osc = oscillation(4 * k + 4)
+    free_osc = [name for name, mat in G.SYMS.items() if not any(C.contains_bt(G.act_perm(mat, osc), t) for t in ts)]
+    if not special:
+        want, why = False, "a family of special simples is unbounded (family formulas)"
+    elif not any(is_pin_perm(t) for t in ts):
+        want, why = False, "no basis element is a pin permutation, so every pin permutation (e.g. every oscillation) is in the class"
+        CTX.count("verdict.all_nonpin_bases")
+    elif free_osc:
+        want, why = False, f"the {free_osc[0]} image of the oscillation of length {4 * k + 4} avoids the basis, hence all longer ones do"
+    else:
+        with monitor.GUARD:
+            want = bool(PinWords.has_finite_pinperms([Perm(t) for t in ts]))
+        why = "family formulas on the full basis, pin part by the automaton"
+    return want, why
 
 
 def post_special(args, kwargs, res, exc):
@@ -285,6 +345,36 @@ def chk_table_probe(ctx, family_index, orientation_index):
     ctx.count("oracleB.table_probes")
 
 
+def nonpin_bases(rng, with_length7):
+    """bases in which permutations that are NOT pin permutations matter: (a) one of them is the only element bounding one
+    (family, orientation); (b) no element is a pin permutation although every (family, orientation) is bounded"""
+    out = []
+    nonpin6 = [t for t in itertools.permutations(range(6)) if t not in P.pin_perms(6)]
+    copies = orientation_classes()
+    for target in rng.sample(copies, 3):
+        sep = separating_basis(target)
+        inside = [q for q in nonpin6 if C.contains_bt(target[1], q)]
+        if sep and inside:
+            out.append([list(b) for b in sep] + [list(rng.choice(inside))])
+    if with_length7:
+        nonpin7 = [t for t in itertools.permutations(range(7)) if t not in P.pin_perms(7)]
+        rng.shuffle(nonpin6)
+        rng.shuffle(nonpin7)
+        basis = []
+        for _fam, mem in copies:
+            if any(C.contains_bt(mem, b) for b in basis):
+                continue
+            q = next((q for q in nonpin6 + nonpin7 if C.contains_bt(mem, q)), None)
+            if q is None:
+                basis = None
+                break
+            basis.append(q)
+        if basis:
+            basis = [b for b in basis if not any(o != b and C.contains_bt(b, o) for o in basis)]
+            out.append([list(b) for b in basis])
+    return out
+
+
 CHECKS = {"basis": chk_basis, "probe": chk_table_probe}
 
 
@@ -325,11 +415,28 @@ def plan(tier, seed):
     probes = [(fi, oi) for fi, n in enumerate((4, 4, 8)) for oi in range(n)]
     specs = [{"name": f"bases-{i}", "kind": "bases", "bases": bases[i::parts], "extra": extra // parts + (i < extra % parts),
               "probes": probes[i::parts], "targets": [i]} for i in range(parts)]
+    specs.append({"name": "nonpin", "kind": "nonpin", "bases": [], "extra": 0, "length7": True})
     return specs
 
 
 def run(ctx, spec):
     rng = ctx.rng
+    if spec.get("kind") == "nonpin":
+        for basis in nonpin_bases(rng, spec["length7"]):
+            ts = [tuple(b) for b in basis]
+            B = [Perm(t) for t in ts]
+            # (the full variation workload is too slow with length-7 tables: the three offers and two listing orders)
+            PinWords.has_finite_simples(B)
+            PinWords.has_finite_simples(B[::-1])
+            a, b = Av(B).has_finitely_many_simples(), FinitelyManySimplesStrategy(B).applies()
+            ctx.ev()
+            easy = K.is_finite(ts) or K.is_polynomial(ts)
+            util = PinWords.has_finite_simples(B)
+            if b is not util or a is not (util or easy):
+                report("basis", [basis], f"the offers disagree: PinWords {util}, Av {a}, strategy {b}")
+            ctx.count("nonpin.bases")
+        ctx.sample({"nonpin_basis": basis})
+        return
     for basis in spec["bases"]:
         chk_basis(ctx, basis)
     for fi, oi in spec.get("probes", []):
